@@ -4,6 +4,7 @@ from sa.report import Check
 from sa.rules import backend as B
 from sa.rules import pipeline as P
 from sa.rules import traversal as T
+from sa.rules import dep_rules as DR
 
 
 def main(tier):
@@ -20,6 +21,8 @@ def main(tier):
             "algorithm and of the greedy stable ordering (loops over run-time graphs)."))
     r, s = cx.repo, cx.schema
     chk.run("R-PIPE", P.pipe, r, floor=12, control=lambda: P.control_pipe(r))
+    chk.run("R-TOPOGUARD", DR.topoguard, r, floor=6)
+    chk.run("R-TARJAN", DR.tarjan, r, floor=10)
     chk.run("R-DEPTWIN", P.deptwin, r, s, cx.sites, floor=2)
     chk.run("R-SKIPLOSS", T.skiploss, r, s, cx.sites, modules=("dependency_checker.py",), floor=4)
     chk.run("R-NAMEDKINDS", P.namedkinds, r, s, cx.sites, floor=10)
